@@ -1123,7 +1123,11 @@ def run(tier, seed, replay=None):
     rng = rng_for(seed, "C04")
     if replay:
         rp = json.load(open(replay))["case"]
-        cases = [(rp.get("tag"), rp["input"], rp["intents"], rp.get("views"))]
+        vws = rp.get("views")
+        if vws is not None:
+            # JSON turned the integer keys (local SEID, rule ids) of the control plane's view into strings
+            vws = [{int(l): dict(v, **{k: {int(i): x for i, x in v[k].items()} for k in ("pdrs", "fars", "qers")}) for l, v in vw.items()} for vw in vws]
+        cases = [(rp.get("tag"), rp["input"], rp["intents"], vws)]
     else:
         cases = gen_cases(rng, tier)
     try:
